@@ -185,8 +185,16 @@ func (p *PIDZero) startStateMonitor() {
 					if !ok {
 						return
 					}
-					// First state discarded to avoid duplicate broadcast
-					p.logger.Debug("Discarded initial state", "runnable", r, "state", state)
+					// The first value is the state at subscription time. Normally it equals what
+					// startRunnable stored and is discarded to avoid a duplicate broadcast; if the
+					// runnable moved on before we subscribed, it is the only notification of that
+					// change, so it must be recorded.
+					if prev, loaded := p.stateMap.Load(r); loaded && prev.(string) != state {
+						p.stateMap.Store(r, state)
+						p.broadcastState()
+					} else {
+						p.logger.Debug("Discarded initial state", "runnable", r, "state", state)
+					}
 				}
 
 				// Keep track of the last state to avoid duplicate broadcasts
